@@ -8,6 +8,7 @@ import (
 	"os"
 	"os/exec"
 	"path/filepath"
+	"runtime/pprof"
 	"sort"
 	"strconv"
 	"strings"
@@ -50,6 +51,8 @@ type ShardResult struct {
 	Exhaustive   bool                 `json:"exhaustive"`
 	CapNote      string               `json:"cap_note,omitempty"`
 	HarnessErr   string               `json:"harness_err,omitempty"`
+	Conf         []ConfCase           `json:"conf,omitempty"`
+	confSeen     int
 }
 
 func newShardResult() *ShardResult {
@@ -145,7 +148,7 @@ func (c *ShardCtx) Quirks() []string {
 }
 
 // Report records a violation; known is the finding id that explains it ("" none).
-func (c *ShardCtx) Report(v Violation, knownQuirk string) {
+func (c *ShardCtx) Report(v Violation, knownQuirk string, conf ...*ConfCase) {
 	v.Property = c.ID
 	if knownQuirk != "" {
 		for _, f := range c.Findings {
@@ -154,6 +157,12 @@ func (c *ShardCtx) Report(v Violation, knownQuirk string) {
 				c.Res.Known[f.ID]++
 				if _, ok := c.Res.KnownSamples[f.ID]; !ok {
 					c.Res.KnownSamples[f.ID] = v
+					for _, cc := range conf {
+						if cc != nil {
+							cc.Why = "known finding " + f.ID
+							c.Res.Conf = append(c.Res.Conf, *cc)
+						}
+					}
 				}
 				return
 			}
@@ -162,6 +171,14 @@ func (c *ShardCtx) Report(v Violation, knownQuirk string) {
 	c.Res.NViolations++
 	if len(c.Res.Violations) < 20 {
 		c.Res.Violations = append(c.Res.Violations, v)
+		if len(c.Res.Violations) <= 2 {
+			for _, cc := range conf {
+				if cc != nil {
+					cc.Why = "violation"
+					c.Res.Conf = append(c.Res.Conf, *cc)
+				}
+			}
+		}
 	}
 }
 
@@ -231,6 +248,11 @@ func workerMain(args []string) int {
 		if f.Property == chk.ID && !f.Fixed {
 			ctx.Findings = append(ctx.Findings, f)
 		}
+	}
+	if pf := os.Getenv("VERIF_CPUPROFILE"); pf != "" && shard == 0 {
+		f, _ := os.Create(pf)
+		pprof.StartCPUProfile(f)
+		defer pprof.StopCPUProfile()
 	}
 	func() {
 		defer func() {
@@ -353,6 +375,30 @@ func runCheck(id, tier string) int {
 	}
 	if len(merged.Samples) > 3 {
 		merged.Samples = merged.Samples[:3]
+	}
+	// conformance: replay the collected cases on really compiled parsers
+	var conf []ConfCase
+	for _, r := range results {
+		for _, cc := range r.Conf {
+			if len(conf) < 96 {
+				conf = append(conf, cc)
+			}
+		}
+	}
+	if len(conf) > 0 && os.Getenv("VERIF_NO_CONFORMANCE") == "" {
+		validated, mism, err := runConformance(conf)
+		if err != nil {
+			fmt.Fprintln(os.Stderr, "harness error: conformance:", err)
+			return 2
+		}
+		if len(mism) > 0 {
+			for _, m := range mism {
+				fmt.Fprintln(os.Stderr, "harness error: conformance mismatch:", m)
+			}
+			return 2
+		}
+		merged.Conformance += int64(validated)
+		merged.Counters["conformance_grammars"] = int64(len(conf))
 	}
 	if chk.Post != nil {
 		chk.Post(tier, merged)
